@@ -53,12 +53,13 @@ def check_c01(prop, tier, replay):
 
 
 def check_c04(prop, tier, replay):
-    mc = [("MCPipeline", "MC_Pipeline.cfg", 600, 8)]
+    mc = [("MCPipeline", "MC_Pipeline.cfg", 600, 8), ("MCPipeline", "MC_Pipeline_solo.cfg", 600, 8)]
     return tv_run(prop, tier, replay, harness_dirs=HARNESS, pkg=".", test="TestVerifNhsim",
                   trace_module="PipelineTrace", tag="PL-REPORT", drift_tag="PL-DRIFT", count_tag="PL-COUNT",
                   batches=_batches(tier, "pipe", stores=(None, "tan", None, "pebble")), env_of=_env, mc=mc,
                   mc_expect_violation=[("MCPipeline", "MC_Pipeline_mutated.cfg", "PersistBeforeSend"),
-                                       ("MCPipeline", "MC_Pipeline_applyfirst.cfg", "ApplyNotAheadOfSave")],
+                                       ("MCPipeline", "MC_Pipeline_applyfirst.cfg", "ApplyNotAheadOfSave"),
+                                       ("MCPipeline", "MC_Pipeline_solo_early.cfg", "CommitToldIsDurable")],
                   level="model_checking", stats_tag="NHSTATS", panic_ok=True, max_workers=8,
                   build_name="nhsim",
                   what="acknowledged state was not durable (message left before its state was saved, restart lost "
